@@ -1,6 +1,8 @@
 SPECIFICATION TraceSpec
 CONSTANTS
   InitStore <- MC_InitStore
+  Asks = {}
+  RGroups = {}
   VarLists <- MC_VarListsOne
   BaseStore <- MC_BaseStore
   CutArgs = {}
